@@ -368,15 +368,16 @@ Definition parse_dec (s : cand) : option Z :=
 
 (** validateById *)
 Definition validate_by_id (issue : N) (v : Z) : bool :=
-  if v =? 0 then false
+  if v <=? 0 then false            (* candidate.Sign() <= 0 *)
   else if N.eqb issue 1 then negb (100 <? v)
   else negb (MaxAER <? v).
 
-(** VoteResult.threshold; None = division by zero panic.  big.Int.Div is Euclidean. *)
+(** VoteResult.threshold (a tally below 100 aer has no hundredth: false).  big.Int.Div is
+    Euclidean.  The option is kept for the shape of [sync]; it is always [Some]. *)
 Definition threshold (total power : Z) : option bool :=
   if power =? 0 then Some false
   else let q := power / 100 in
-       if q =? 0 then None else Some (total / q <=? 150).
+       if q =? 0 then Some false else Some (total / q <=? 150).
 
 Inductive sync_res := SyncOk (d : durable) (m : memory) | SyncPanic (m : memory).
 
